@@ -18,6 +18,7 @@ Definition reads := (list getres * list (list (bytes * bytes)))%type.
 
 Inductive cstep :=
 | CStep (some : bool)                       (* Compact returned a change set *)
+        (failed : bool)                      (* Compact returned an error (injected storage read fault) *)
         (extra : list table)                 (* level-0 tables added between Compact and the apply *)
         (ranges : list (list (bytes * bytes))) (* per level (startKey, endKey) of every table afterwards *)
         (post : reads).
@@ -141,12 +142,13 @@ Fixpoint c18_steps (cfg : ccfg) (keys prefixes : list bytes) (mcl : nat) (ll : l
          (steps : list cstep) : list N :=
   match steps with
   | [] => []
-  | CStep some extra ranges post :: r =>
-      let '(ocs, mcl') := compact table_size cfg mcl ll in
-      let ll1 := add_l0 extra ll in
-      let ll2 := match ocs with Some cs => apply_cs cs ll1 | None => ll1 end in
+  | CStep some failed extra ranges post :: r =>
+      let ocs := fst (compact table_size cfg mcl ll) in
+      let '(ll2, mcl') := compact_step table_size failed cfg mcl ll extra in
       let all' := all ++ extra in
-      (if Bool.eqb some (match ocs with Some _ => true | None => false end) then [] else [5]) ++
+      (* a failure can only come from a step that reads tables, i.e. one that would have produced a change set *)
+      (if Bool.eqb some (match ocs with Some _ => negb failed | None => false end) then [] else [5]) ++
+      (if failed && match ocs with Some _ => false | None => true end then [9] else []) ++
       (if list_eqb (list_eqb kv_eqb) ranges (ranges_of ll2) then [] else [6]) ++
       reads_codes 3 4 post (model_reads keys prefixes ll2) ++
       spec_reads_codes 14 15 post (spec_reads keys prefixes all') ++
